@@ -152,7 +152,9 @@ func ParseOptions(rawData []byte) (Options, error) {
 			return nil, ErrLength
 		}
 
-		value := rawData[p : p+int(vlen)]
+		// copy: the option must not alias the caller's buffer, which is reused after decoding
+		value := make([]byte, vlen)
+		copy(value, rawData[p:p+int(vlen)])
 		p += int(vlen)
 
 		ops[Tag(tag)] = Option{
